@@ -193,6 +193,127 @@ def stepSpec (isSplit : Bool) (gin : G) (out : Array String) : String :=
         (if isSplit then [("split-and-glue-result-is-strictly-smaller", decide (s.size < gin.size))] else []))
     | _ => fail "unreadable-result"
 
+/-! ### the cut network of `split_and_glue` (explicit choice of `start`) -/
+
+def sortPairs (l : List (Nat × Nat)) : List (Nat × Nat) :=
+  l.foldl (fun acc p =>
+    let rec ins : List (Nat × Nat) → List (Nat × Nat)
+      | [] => [p]
+      | q :: qs => if pairLt p q then p :: q :: qs else q :: ins qs
+    ins acc) []
+
+/-- `network_edges`: the deterministic prefix as it is, the two stars (HashSet order) sorted -/
+def canonNet (k : Nat) (net : List (Nat × Nat)) : List (Nat × Nat) := net.take k ++ sortPairs (net.drop k)
+
+def encOutPairs : Outcome (List (Nat × Nat)) → String
+  | .ok l => encPairs l
+  | .err => "ERR"
+  | .panic => "PANIC"
+
+def encCut : Outcome (List (Nat × Nat)) → String
+  | .ok l => "S " ++ encPairs l
+  | .err => "ERR"
+  | .panic => "PANIC"
+
+/-- every outcome `network_cut(ds, d, mode)` can have, over the iteration orders of `marked`:
+    one per admissible start; `N` when there is none; `PANIC` as well when some member of `marked`
+    has no 0-neighbour (the `unwrap` inside `find` may meet it first) -/
+def netCutOutcomes (ds : DSetData) (d : Nat) (mode : Bool) : List String :=
+  match networkCutPre ds d mode with
+  | .ok pre =>
+    let marked := memFn ds.size pre.marked
+    let special := memFn ds.size pre.special
+    let starts := admissibleStarts ds pre.marked
+    let mayPanic := (View.sortDedup pre.marked).any fun e => (ds.opPartial 0 e).isNone
+    let rs := (starts.map fun s => encCut (cutPairsInOrder ds s marked special)).eraseDups
+    rs ++ (if mayPanic && !rs.contains "PANIC" then ["PANIC"] else []) ++ (if starts.isEmpty && !mayPanic then ["N"] else [])
+  | .err => ["ERR"]
+  | .panic => ["PANIC"]
+
+/-- the model's answer among several admissible ones: the implementation's if it is admissible -/
+def pickOutcome (cands : List String) (out : Array String) : String :=
+  let o := joinToks out.toList
+  if cands.contains o then o else cands.headD "?"
+
+/-- the candidates of one call of `network_cut` inside `split_and_glue`, as entries of `cuts`
+    (complete D-sets: every admissible start is a possible choice) -/
+def sgCallCands (ds : DSetData) (d : Nat) (mode : Bool) : Outcome (List CutEntry) :=
+  match networkCutPre ds d mode with
+  | .ok pre =>
+    let marked := memFn ds.size pre.marked
+    let special := memFn ds.size pre.special
+    (admissibleStarts ds pre.marked).foldl (fun (acc : Outcome (List CutEntry)) s =>
+      match acc with
+      | .ok es =>
+        (match cutPairsInOrder ds s marked special with
+         | .ok ordered =>
+           (match makeKey ds d ordered with
+            | .ok key =>
+              let e : CutEntry := { key := key, d := d, ordered := ordered }
+              .ok (if es.contains e then es else es ++ [e])
+            | .err => .err
+            | .panic => .panic)
+         | .err => .err
+         | .panic => .panic)
+      | o => o) (.ok [])
+  | .err => .err
+  | .panic => .panic
+
+/-- all calls of `split_and_glue` with their candidate entries (after the `key.0` filter) -/
+def sgCalls (ds : DSetData) : Outcome (List (List CutEntry)) :=
+  let faces := ds.viewPartial.orbitReps [0, 1, 3] (seedsIncl ds)
+  let edges := (ds.viewPartial.orbitReps [0] (seedsIncl ds)).filter fun d => ds.viewPartial.r 2 3 d == .ok (some 3)
+  let step (mode : Bool) (acc : Outcome (List (List CutEntry))) (d : Nat) : Outcome (List (List CutEntry)) :=
+    match acc with
+    | .ok cs =>
+      (match sgCallCands ds d mode with
+       | .ok es =>
+         let kept := es.filter fun e => if mode then e.key.1 == 0 else decide (e.key.1 < 0)
+         .ok (if kept.isEmpty then cs else cs ++ [kept])
+       | .err => .err
+       | .panic => .panic)
+    | o => o
+  edges.foldl (step true) (faces.foldl (step false) (.ok []))
+
+/-- is the key the same for all candidates of a call (true whenever the candidates are rotations or
+    mirror images of one another)? -/
+def uniformKey (es : List CutEntry) : Bool :=
+  match es with
+  | [] => true
+  | e :: rest => rest.all fun e' => e'.key == e.key
+
+/-- The results `split_and_glue` can return over all choices of `start`, matched against the
+    implementation's.  With uniform keys the order of the calls in `cuts` is fixed; the call whose
+    attempt first yields a smaller D-set wins, so the implementation's result must be a successful
+    attempt of some candidate of a call all of whose predecessors have a failing candidate. -/
+def sgMatch (ds : DSetData) (out : Array String) : String :=
+  let o := joinToks out.toList
+  match sgCalls ds with
+  | .ok calls =>
+    let isWin (r : Step) : Bool :=
+      match r with
+      | .ok (some (.dset s)) => decide (s.size < ds.size)
+      | .ok _ => false
+      | _ => true          -- a panic ends the run as well
+    if calls.all uniformKey then
+      let sorted := cutSort (calls.filterMap List.head?)
+      let rec go : List CutEntry → String
+        | [] => "N"
+        | c :: rest =>
+          let cands := (calls.find? fun es => es.head?.map (·.d) == some c.d && es.head?.map (·.key) == some c.key).getD [c]
+          let rs := cands.map (sgTry ds)
+          let wins := (rs.filter isWin).map encStep
+          if wins.contains o then o
+          else if rs.all isWin then wins.headD "?"
+          else go rest
+      go sorted
+    else
+      -- keys depend on the choice: the order of `cuts` does too; accept any attempt that wins
+      let wins := (calls.flatMap fun es => (es.map (sgTry ds)).filter isWin).map encStep
+      if wins.contains o then o else if o == "N" then "N" else wins.headD "N"
+  | .err => "ERR"
+  | .panic => "PANIC"
+
 /-! ### handler -/
 
 def dsOnly (inp : Array String) : Option DSetData :=
@@ -201,7 +322,7 @@ def dsOnly (inp : Array String) : Option DSetData :=
 def handler : Handler := fun op inp out =>
   let bad := ("-", fail "driver-cannot-parse-input")
   match op with
-  | "simplify" =>
+  | "simplify" | "simplify_sds" | "simplify_ssym" =>
     (match run (do let h ← P.nat; let s ← P.dset; let fin ← P.atEnd; pure (h, s, fin)) inp with
      | some (hyp, s, true) => ("-", simplifySpec hyp (specOfSet s) out)
      | _ => bad)
@@ -211,10 +332,53 @@ def handler : Handler := fun op inp out =>
      | none => bad)
   | "corpus_cover" =>
     ("-", if out == #["N"] then fail "corpus-symbol-has-no-pseudo-toroidal-cover" else ok)
-  | "split_and_glue" | "merge_all_s" =>
+  | "split_and_glue_s" | "merge_all_s" =>
     (match dsOnly inp with
-     | some s => ("-", stepSpec (op == "split_and_glue") (specOfSet s) out)
+     | some s => ("-", stepSpec (op == "split_and_glue_s") (specOfSet s) out)
      | none => bad)
+  | "split_and_glue" =>
+    (match dsOnly inp with
+     | some s => (sgMatch s out, stepSpec true (specOfSet s) out)
+     | none => bad)
+  | "net_edges" =>
+    (match run (do let s ← P.dset; let d ← P.nat; let m ← P.nat; let e2i ← P.nats; let es ← P.pairs
+                   let so ← P.nat; let si ← P.nat; let fin ← P.atEnd; pure (s, d, m, e2i, es, so, si, fin)) inp with
+     | some (s, d, m, e2i, es, so, si, true) =>
+       (match networkEdges s d (m == 1) e2i.toArray es so si with
+        | .ok net => (encPairs (canonNet es.length net), ok)
+        | .err => ("ERR", ok)
+        | .panic => ("PANIC", ok))
+     | _ => bad)
+  | "cut_insides" =>
+    (match run (do let cv ← P.nats; let iv ← P.nats; let reps ← P.nats; let s ← P.dset; let d ← P.nat
+                   let fin ← P.atEnd; pure (cv, iv, reps, s, d, fin)) inp with
+     | some (cv, iv, reps, s, d, true) =>
+       (match cutWithInsides cv iv reps s d with
+        | .ok l => (encNats l, ok)
+        | .err => ("ERR", ok)
+        | .panic => ("PANIC", ok))
+     | _ => bad)
+  | "make_key" =>
+    (match run (do let s ← P.dset; let d ← P.nat; let ps ← P.pairs; let fin ← P.atEnd; pure (s, d, ps, fin)) inp with
+     | some (s, d, ps, true) =>
+       (match makeKey s d ps with
+        | .ok k => (joinToks [toString k.1, toString k.2.1, toString k.2.2], ok)
+        | .err => ("ERR", ok)
+        | .panic => ("PANIC", ok))
+     | _ => bad)
+  | "cut_pairs" =>
+    (match run (do let s ← P.dset; let st ← P.nat; let mk ← P.nats; let sp ← P.nats; let fin ← P.atEnd
+                   pure (s, st, mk, sp, fin)) inp with
+     | some (s, st, mk, sp, true) => (encOutPairs (cutPairsInOrder s st (memFn s.size mk) (memFn s.size sp)), ok)
+     | _ => bad)
+  | "net_cut" =>
+    (match run (do let s ← P.dset; let d ← P.nat; let m ← P.nat; let fin ← P.atEnd; pure (s, d, m, fin)) inp with
+     | some (s, d, m, true) => (pickOutcome (netCutOutcomes s d (m == 1)) out, ok)
+     | _ => bad)
+  | "sg_attempt" =>
+    (match run (do let s ← P.dset; let g ← P.nat; let ps ← P.pairs; let fin ← P.atEnd; pure (s, g, ps, fin)) inp with
+     | some (s, g, ps, true) => (encStep (splitAndGlueAttempt s g ps), ok)
+     | _ => bad)
   | "collapse" =>
     (match run (do let s ← P.dset; let rem ← P.nats; let c ← P.nat; let fin ← P.atEnd; pure (s, rem, c, fin)) inp with
      | some (s, rem, c, true) => (encStep (collapse (.dset s) rem c), ok)
